@@ -177,6 +177,16 @@ pub fn spaces(tier: Tier) -> Vec<Space<'static>> {
     let l = if tier.thorough() { 7 } else { 6 };
     let nt = TOKENS.len() as u64;
     let tot: u64 = (0..=l).map(|k| nt.pow(k)).sum();
+    // numbers around every width boundary as elements (an index when it fits i32, else per the grammar)
+    {
+        let nums = crate::checks::c20::extreme_number_texts();
+        sp.push(Space::new("numbers around width boundaries as elements", nums.len() as u64, move |i, acc| {
+            let n = &nums[i as usize];
+            for t in [format!("{{{}}}", n), format!("{{a,{}}}", n), format!("{{{},\"x\"}}", n), format!("{{ {} }}", n)] {
+                judge_raw(t.as_bytes(), acc);
+            }
+        }));
+    }
     // every Unicode scalar value as a plain name, inside a plain name and inside a quoted name
     sp.push(Space::new("every scalar value in a plain name, between name characters, and quoted", crate::univ::N_CHARS, |i, acc| {
         let c = crate::univ::nth_char(i);
